@@ -15,7 +15,11 @@ Oracle: the comparison across processes *is* the implementation-side property or
         first from corpus/C12/).
 """
 import json, os, re, subprocess, concurrent.futures as cf
-from . import common, scopegen
+from . import common
+try:                      # C13's generator; C12 degrades (and says so in evidence) if it is mid-edit
+    from . import scopegen
+except Exception as _ex:  # noqa
+    scopegen = None
 from .common import hexs
 
 BIN = lambda: common.harness_bin("C12")
@@ -189,6 +193,8 @@ def gen_accepted(rng, idx):
     """Multi-module program that compiles: scopegen functions over the library classes spread over
     several modules + string literals + non-entry `Main.main`s + long shared identifiers +
     recursion/loops for the optimiser."""
+    if scopegen is None:
+        return gen_accepted_fallback(rng, idx)
     p = scopegen.gen_program(rng.fork(), nfun=rng.range(1, 3))
     nlib = rng.range(1, 3)
     libmods = ["LibA", "util.LibB", "deep.er.LibC"][:nlib]
@@ -271,6 +277,20 @@ def gen_accepted(rng, idx):
     src["Main"] = head + "\n".join(extra_imports) + "\n" + main + "\n"
     return {"sources": src, "entry": "Main", "std": True, "kind": "accepted", "id": idx,
             "forms": p["forms"], "nmain": nmain + 1}
+
+
+def gen_accepted_fallback(rng, idx):
+    """Used only when vlib/scopegen.py cannot be imported: string literals, recursion/loops, two mains."""
+    n = rng.range(3, 12)
+    src = {
+        "Txt": "class Txt {\n" + "\n".join(f'  function s{i}(): Str = "{rng.pick(WORDS)}"' for i in range(3)) + "\n}\n",
+        "Rec": ("class Lst(Nil, Cons(int, Lst)) {\n  function upto(n: int): Lst = if n <= 0 { Lst.Nil() } else { Lst.Cons(n, Lst.upto(n - 1)) }\n"
+                "  method sum(acc: int): int = match (this) { Nil -> acc, Cons(h, t) -> t.sum(acc + h) }\n}\n"),
+        "aux.Side": "import { Lst } from Rec;\nclass Main {\n  function main(): unit = Process.println(Str.fromInt(Lst.upto(2).sum(1)))\n}\n",
+        "Main": ("import { Txt } from Txt;\nimport { Lst } from Rec;\nclass Main {\n  function main(): unit = { Process.println(Txt.s0()); Process.println(Txt.s1() :: Txt.s2()); "
+                 f"let f = (a: int, b: int) -> a * {rng.range(2, 9)} + b; Process.println(Str.fromInt(f(Lst.upto({n}).sum(0), {rng.range(0, 9)}))); }}\n}}\n"),
+    }
+    return {"sources": src, "entry": "Main", "std": True, "kind": "accepted", "id": idx, "forms": [], "nmain": 2}
 
 
 def err_snippets(rng, i, avoid_known=True):
@@ -759,7 +779,11 @@ def cex_leg(ctx, stats):
     generated module) and model driver: every case is checked 3 times per process (every check builds
     its HashMaps with fresh RandomState keys) in 4 fresh processes; all 12 answers must be identical;
     agreement with the Lean model of C07 (Model/Useful.lean, deterministic sorted walk) is counted."""
-    from . import c07
+    try:
+        from . import c07
+    except Exception as ex:
+        stats["cex_skipped"] = f"vlib/c07.py cannot be imported ({type(ex).__name__})"
+        return
     try:
         common.build_harness("C07")
         ok, _ = common.build_lean(["drv-c07"])
@@ -946,6 +970,7 @@ def run(ctx):
                 "useless patterns, unresolved names/classes/members/modules, arity, duplicates, syntax errors, cyclic interfaces, "
                 "underconstrained generics, or-pattern bindings, struct bindings, private access)",
         "samples": samples, "traces_validated_against_impl": stats["traces"] + stats.get("errset_ok", 0) + stats.get("layout_ok", 0),
+        "generators_available": {"scopegen": scopegen is not None},
         "temp_counter_correspondence": stats.get("tempctr"), "threads_1_vs_16": stats.get("schedule"),
         "counterexample_search_permuted_maps": stats.get("cex", stats.get("cex_skipped")),
         "layout_cases_ok": stats.get("layout_ok", 0), "layout_cases_skipped": stats.get("layout_skipped", 0),
